@@ -121,9 +121,10 @@ ARG_ACTIONS = {None: True, "store": True, "append": True, "store_split": True, "
 
 
 def base_options(repo):
+    """[(flags registered together, takes a separate argument, value is optional)]"""
     tree = ast.parse((repo / "codebasin/config.py").read_text())
     f = find_func(tree, "ArgumentParser", "parse_args")
-    opts = []
+    groups = []
     positional = 0
     for n in ast.walk(f):
         if isinstance(n, ast.Call) and ast.unparse(n.func) == "parser.add_argument":
@@ -138,21 +139,26 @@ def base_options(repo):
             kw = {k.arg: k.value for k in n.keywords}
             action = const_str(kw["action"]) if "action" in kw else None
             if flags and all(x.startswith("-") for x in flags):
-                if action not in ARG_ACTIONS or "nargs" in kw:
-                    raise ValueError(f"unexpected action/nargs for {flags}")
-                for x in flags:
-                    opts.append((x, ARG_ACTIONS[action]))
+                if action not in ARG_ACTIONS:
+                    raise ValueError(f"unexpected action for {flags}")
+                takes, optional = ARG_ACTIONS[action], False
+                if "nargs" in kw:
+                    if not (takes and ast.unparse(kw["nargs"]) == "'?'"):
+                        raise ValueError(f"unexpected nargs for {flags}")
+                    takes, optional = False, True          # a value may be glued on, none is required
+                groups.append((flags, takes, optional))
             else:
                 if flags != ["file"] or ast.unparse(kw.get("nargs")) != "'*'":
                     raise ValueError(f"unexpected positional {flags}")
                 positional += 1
-    if positional != 1 or not opts:
+    if positional != 1 or not groups:
         raise ValueError("parse_args: expected the option block and one positional")
-    return opts
+    return groups
 
 
 def compilers(repo):
     out = []
+    groups = []
     for p in sorted((repo / "codebasin/compilers").glob("*.toml")):
         toml = tomllib.loads(p.read_text())
         for name, d in toml["compiler"].items():
@@ -165,10 +171,11 @@ def compilers(repo):
                     raise ValueError(f"{p.name}: unexpected action for {o['flags']}")
                 for x in o["flags"]:
                     flags.append((x, ARG_ACTIONS[o["action"]]))
+                groups.append(list(o["flags"]))
                 if o.get("dest") == "passes" and "default" in o:
                     npass += len(o["default"])
             out.append((name, alias, options, flags, npass))
-    return out
+    return out, groups
 
 
 def extensions(repo):
@@ -189,14 +196,27 @@ def generate(repo: Path):
     lines.append("(* (regex is '.', literal regex, message before the count, message after the count) *)")
     lines.append("Definition meta_warnings : list (bool * string * string * string) :=\n  %s." %
                  coq_list("(%s, %s, %s, %s)" % (b(d), coq_str(l), coq_str(pre), coq_str(post)) for d, l, pre, post in meta_warnings(repo)))
-    lines.append("(* (flag, takes an argument) *)")
+    base = base_options(repo)
+    comps, cgroups = compilers(repo)
+    groups = []
+    for g in [fl for fl, _, _ in base] + cgroups:
+        for other in groups:
+            if set(g) & set(other) and g != other:
+                raise ValueError(f"flag registered in two different groups: {g} / {other}")
+        if g not in groups:
+            groups.append(g)
+    lines.append("(* (flag, takes a separate argument) *)")
     lines.append("Definition base_options : list (string * bool) := %s." %
-                 coq_list("(%s, %s)" % (coq_str(f), b(a)) for f, a in base_options(repo)))
+                 coq_list("(%s, %s)" % (coq_str(f), b(t)) for fl, t, _ in base for f in fl))
+    lines.append("(* flags whose value is optional (nargs='?'): a value may be glued on, none is required *)")
+    lines.append("Definition optional_value : list string := %s." % coq_list(coq_str(f) for fl, _, o in base if o for f in fl))
+    lines.append("(* option strings registered together (argparse names an option by all of them) *)")
+    lines.append("Definition flag_groups : list (list string) := %s." % coq_list(coq_list(coq_str(f) for f in g) for g in groups))
     lines.append("(* (name, alias_of, default options, registered flags, number of default extra passes) *)")
     lines.append("Definition compilers : list (string * option string * list string * list (string * bool) * nat) :=\n  %s." %
                  coq_list("(%s, %s, %s, %s, %d)" % (coq_str(n), ("Some %s" % coq_str(a)) if a else "None",
                                                     coq_list(coq_str(o) for o in opts),
                                                     coq_list("(%s, %s)" % (coq_str(f), b(t)) for f, t in fl), np)
-                          for n, a, opts, fl, np in compilers(repo)))
+                          for n, a, opts, fl, np in comps))
     lines.append("Definition source_extensions : list string := %s." % coq_list(coq_str(x) for x in extensions(repo)))
     return {"C18_tables.v": "\n".join(lines) + "\n"}
